@@ -93,6 +93,24 @@ Additions of phase 6 (orchestration code, see notes/PHASE6_A.md; only with `extr
     of those);
   * a constructor may also read / `append` to the attributes it has stored (`self._xs.append(v)` on a `self._xs = []`).
 
+Additions of phase 6, second list (refactor round 3, notes/PHASE6_neutral_refactors_round3.md; all of them leave the renderings of the
+unchanged source byte-identical, none depends on `plumbing`):
+  * `x is E.m` / `x is not E.m` with a member of an Enum class that defines no `__eq__`/`__ne__`/`__hash__` is `==` / `!=`
+    (equality of such members IS identity); PyLite's own `is` stays reserved for `None`;
+  * `x in {A, B}` / `x not in {A, B}` with a set display of enum members / int, str, bool, None constants is membership in the
+    list of the elements (their hash is consistent with `==`);
+  * outside the plumbing modules a call `C(a=x, b=y)` of a same-file class / function whose keywords (after the positional
+    arguments) fill a prefix of the signature is written positionally (at most one non-trivial value: evaluation order);
+  * `math.prod(it)` (`from math import prod` / `import math`) is `reduce(mul, it, 1)`;
+  * `super().m(a, …)` inside a method of `class C(B)` with the single base `B` is `B.m(self, a, …)`;
+  * a MODULE-LEVEL function of the same file whose body is a single `return <expr>` is inlined like a nested single-return
+    helper (so hoisting such a helper out of the function changes nothing); an OPAQUE helper (`opaque=`) that is no longer
+    nested is looked for at module level: the only non-inlinable same-file function the body calls keeps the name `helper#k`;
+  * `x = E` directly followed by `return R`, `x` bound nowhere else and read exactly once - as the first thing `R` evaluates -
+    is `return R[x := E]`;
+  * `if a: (if b: S)` without any `else` is `if a and b: S`;
+  * `extract_funcs` follows a function that was moved to another private module and re-exported (`from ._x import f`).
+
 Parameters and local variables are alpha-normalised (v0, v1, … in order of first occurrence), so renaming them,
 reformatting, comments, docstrings and type annotations do not change the translation at all (the rendering does
 not mention the source names either, so the module's status stays 'same').  `names_of(src, funcs)` prints the mapping."""
@@ -145,14 +163,51 @@ def find_def(tree: ast.AST, path: str) -> tuple[ast.FunctionDef, list[ast.AST]]:
     return node, scopes
 
 
+class EnumInfo(dict):
+    """{enum class: [members]}; `custom_eq` = the classes that define `__eq__` / `__ne__` / `__hash__` themselves (for all
+    others `==` on members IS identity, so `x is E.m` and `x == E.m` are the same decision)"""
+    custom_eq: set = frozenset()
+
+
 def enum_classes(trees) -> dict[str, list[str]]:
-    out = {}
+    out = EnumInfo()
+    custom = set()
     for tree in trees:
         for n in ast.walk(tree):
             if isinstance(n, ast.ClassDef) and any(isinstance(b, ast.Name) and b.id == "Enum" for b in n.bases):
                 out[n.name] = [t.id for st in n.body if isinstance(st, ast.Assign)
                                for t in st.targets if isinstance(t, ast.Name)]
+                if any(isinstance(m, ast.FunctionDef) and m.name in ("__eq__", "__ne__", "__hash__") for m in n.body):
+                    custom.add(n.name)
+    out.custom_eq = custom
     return out
+
+
+def resolve_reexport(src, rel: str, name: str, depth: int = 0):
+    """-> (rel2, tree2): the file of the package in which the module-level def / class `name` that `rel` exposes is actually
+    defined.  A private function moved to another module and re-exported (`from ._x import name` in `rel`) is followed
+    (relative imports only, a few hops); if `rel` defines `name` itself - or nothing can be followed - `rel` is returned."""
+    import posixpath
+    tree = ast.parse(src(rel))
+    if any(isinstance(n, (ast.FunctionDef, ast.ClassDef)) and n.name == name for n in tree.body) or depth > 3:  # noqa: PLR2004
+        return rel, tree
+    for n in tree.body:
+        if isinstance(n, ast.ImportFrom) and n.level > 0 and n.module:
+            for a in n.names:
+                if (a.asname or a.name) == name:
+                    base = posixpath.dirname(rel)
+                    for _ in range(n.level - 1):
+                        base = posixpath.dirname(base)
+                    mod = posixpath.join(base, *n.module.split("."))
+                    for cand in (mod + ".py", posixpath.join(mod, "__init__.py")):
+                        try:
+                            src(cand)
+                        except OSError:
+                            continue
+                        if a.name != name:      # renamed on import: the def has another name there - not followed
+                            return rel, tree
+                        return resolve_reexport(src, cand, name, depth + 1)
+    return rel, tree
 
 
 def _is_docstring(s) -> bool:
@@ -197,6 +252,40 @@ def _loop(s):
 def _gen(elt, x, it):
     return ast.GeneratorExp(elt=elt, generators=[ast.comprehension(target=ast.Name(id=x, ctx=ast.Store()), iter=it,
                                                                    ifs=[], is_async=0)])
+
+
+def _first_evaluated(e):
+    """the sub-expression of `e` that Python evaluates first, if that is a plain name (else None)"""
+    while True:
+        if isinstance(e, ast.Name):
+            return e
+        if isinstance(e, ast.Call):
+            if isinstance(e.func, ast.Name):
+                if e.func.id in ("any", "all", "reduce") or not e.args or isinstance(e.args[0], ast.Starred):
+                    return None
+                e = e.args[0]
+            elif isinstance(e.func, ast.Attribute):
+                e = e.func.value
+            else:
+                return None
+        elif isinstance(e, ast.Attribute):
+            e = e.value
+        elif isinstance(e, ast.Subscript):
+            e = e.value
+        elif isinstance(e, ast.BinOp):
+            e = e.left
+        elif isinstance(e, ast.Compare):
+            e = e.left
+        elif isinstance(e, ast.BoolOp):
+            e = e.values[0]
+        elif isinstance(e, ast.IfExp):
+            e = e.test
+        elif isinstance(e, ast.UnaryOp):
+            e = e.operand
+        elif isinstance(e, (ast.Tuple, ast.List)) and e.elts and not isinstance(e.elts[0], ast.Starred):
+            e = e.elts[0]
+        else:
+            return None
 
 
 def normalise_loops(stmts: list, plumbing=False) -> list:
@@ -292,23 +381,41 @@ class Tr:
     def __init__(self, fn: ast.FunctionDef, enums: dict[str, list[str]], loggers=frozenset(), plumbing=False,
                  opaque=(), module=None, orch=False, cls=None, methods=None, meta=None):
         self.fn, self.enums, self.loggers, self.plumbing, self.module = fn, enums, loggers, plumbing, module
-        # phase 6: `cls` = the class the method lives in, `methods` = {method name: lean name} of the methods of that class
-        # translated earlier in the module, `meta` = {lean name: facts about the translated callee}
+        # phase 6: `cls` = the class (ClassDef) the method lives in (None for functions), `methods` = {method name: lean name}
+        # of the methods of that class translated earlier in the module, `meta` = {lean name: facts about the translated callee}
         self.orch, self.cls, self.methods, self.meta = orch, cls, dict(methods or {}), dict(meta or {})
         self.self_name = fn.args.args[0].arg if (orch and cls is not None and fn.args.args) else None
         self.mutates_self, self.mutates_params = False, set()
+        self.inline_depth = 0       # nesting of inlined module-level single-return helpers
         self.helpers = {s.name: s for s in fn.body if isinstance(s, ast.FunctionDef)}
         # helpers that are to be externals although they could be inlined (string parsing, …): given as
         # (name, position among the nested defs); found by name, or - after a renaming - by position
         order = [s.name for s in fn.body if isinstance(s, ast.FunctionDef)]
         self.forced_opaque = set()
+        self.module_opaque = {}     # module-level function standing for the opaque helper #k (see below)
         for name, k in opaque:
             if name in self.helpers:
                 self.forced_opaque.add(name)
             elif k < len(order):
                 self.forced_opaque.add(order[k])
             else:
-                raise TranslationError(f"{fn.name}: no nested helper `{name}` / #{k}")
+                # the opaque helper is no longer nested: hoisted to module level (possibly renamed).  It is then the ONLY
+                # module-level function of the same file that the body calls and that is not an inlinable single-return
+                # helper; it keeps its external name `helper#k` (the theorems are parametric in what it computes, exactly
+                # as for the nested helper)
+                mod_funcs = {n.name: n for n in getattr(module, "body", []) if isinstance(n, ast.FunctionDef)}
+                bound = {a.arg for n in ast.walk(fn) if isinstance(n, (ast.FunctionDef, ast.Lambda)) for a in n.args.args} | \
+                        {n.id for n in ast.walk(fn) if isinstance(n, ast.Name) and isinstance(n.ctx, ast.Store)}
+                cands = set()
+                for c in ast.walk(fn):
+                    if isinstance(c, ast.Call) and isinstance(c.func, ast.Name) and c.func.id in mod_funcs \
+                            and c.func.id not in bound and c.func.id not in self.helpers and mod_funcs[c.func.id] is not fn:
+                        body = [x for x in mod_funcs[c.func.id].body if not _is_docstring(x)]
+                        if not (len(body) == 1 and isinstance(body[0], ast.Return)):
+                            cands.add(c.func.id)
+                if len(cands) != 1 or self.module_opaque:
+                    raise TranslationError(f"{fn.name}: no nested helper `{name}` / #{k}")
+                self.module_opaque[cands.pop()] = k
         self.fresh = 0
         # every name bound somewhere in the function: parameters (also of nested defs / lambdas), assignment / loop /
         # comprehension targets.  Any other name that is used as a value is a module-level one.
@@ -379,7 +486,18 @@ class Tr:
                     raise TranslationError(f"unsupported comparison {type(op).__name__}")
                 if len(e.ops) > 1 and not _simple(right):
                     raise TranslationError("chained comparison with a non-trivial middle operand")
-                parts.append(("cmp", _CMPOP[type(op)], rec(left), rec(right)))
+                opname = _CMPOP[type(op)]
+                if opname in ("isIn", "notIn") and isinstance(right, ast.Set) and right.elts \
+                        and all(self.hashable_literal(x) for x in right.elts):
+                    # `x in {A, B}`: the elements are enum members / constants (hash consistent with ==), so membership in
+                    # the set display is membership by `==` in the list of its elements
+                    tl, tr_ = rec(left), ("tuple", [rec(x) for x in right.elts])
+                else:
+                    tl, tr_ = rec(left), rec(right)
+                if opname in ("is", "isNot") and any(self.plain_enum_member(t) for t in (tl, tr_)):
+                    # identity with a member of an Enum class that does not define its own `__eq__`: the same decision as `==`
+                    opname = "eq" if opname == "is" else "ne"
+                parts.append(("cmp", opname, tl, tr_))
                 left = right
             out = parts[-1]
             for p in reversed(parts[:-1]):
@@ -406,6 +524,15 @@ class Tr:
         if isinstance(e, ast.Dict) and not e.keys and self.plumbing:
             return ("lit", ("dict",))
         raise TranslationError(f"unsupported expression: {_dump(e)}")
+
+    def plain_enum_member(self, t) -> bool:
+        return t[0] == "lit" and t[1][0] == "enum" and t[1][1] not in getattr(self.enums, "custom_eq", ())
+
+    def hashable_literal(self, x) -> bool:
+        if isinstance(x, ast.Constant):
+            return x.value is None or isinstance(x.value, (bool, int, str))
+        return isinstance(x, ast.Attribute) and isinstance(x.value, ast.Name) and x.value.id in self.enums \
+            and x.value.id not in getattr(self.enums, "custom_eq", ()) and x.attr in self.enums[x.value.id]
 
     def packed(self, elts, sub):
         """`(*a, b, *c)` as a concatenation of lists"""
@@ -569,9 +696,85 @@ class Tr:
         k = [s.name for s in self.fn.body if isinstance(s, ast.FunctionDef)].index(h.name)
         return ("ext", f"closure#{k}", [])
 
+    def positional_form(self, e: ast.Call, sub):
+        """(modules translated WITHOUT `plumbing`) `C(a=x, b=y)` for a class / function `C` defined at module level of the same
+        file whose parameters are known: written with positional arguments in the order of the signature - what the call
+        means - provided the keywords (with the positional arguments before them) fill a prefix of the parameters and at most
+        one value is not a plain name / constant / attribute chain (so the order of evaluation cannot be observed)"""
+        f = e.func
+        if self.plumbing or not e.keywords or not isinstance(f, ast.Name) or f.id in sub or f.id in self.bound \
+                or f.id in self.helpers or f.id in _BUILTIN:
+            return None
+        if any(k.arg is None for k in e.keywords) or any(isinstance(a, ast.Starred) for a in e.args):
+            return None
+        sig = self.signature(f.id)
+        given = {k.arg: k.value for k in e.keywords}
+        if sig is None or len(given) != len(e.keywords) or len(e.args) + len(given) > len(sig):
+            return None
+        rest = sig[len(e.args):len(e.args) + len(given)]
+        if set(rest) != set(given) or sum(1 for v in given.values() if not _simple(v)) > 1:
+            return None
+        return ast.Call(func=f, args=list(e.args) + [given[p] for p in rest], keywords=[])
+
+    def module_helper(self, name: str):
+        """a module-level function of the same file whose body is a single `return <expr>` over its own parameters, enum
+        members and module-level names only (none of which the translated function rebinds): it can be inlined exactly like
+        a nested single-return helper, so hoisting such a helper out of the function does not change the translation"""
+        for n in getattr(self.module, "body", []):
+            if isinstance(n, ast.FunctionDef) and n.name == name and n is not self.fn and not n.decorator_list:
+                body = [s for s in n.body if not _is_docstring(s)]
+                a = n.args
+                if len(body) != 1 or not isinstance(body[0], ast.Return) or body[0].value is None \
+                        or a.vararg or a.kwarg or a.kwonlyargs or a.posonlyargs or a.defaults:
+                    return None
+                params = {p.arg for p in a.args}
+                free = {x.id for x in ast.walk(body[0].value) if isinstance(x, ast.Name)} - params
+                if free & (self.bound | set(self.helpers)):
+                    return None
+                if any(isinstance(x, (ast.Lambda, ast.NamedExpr, ast.Yield, ast.YieldFrom, ast.Await))
+                       for x in ast.walk(body[0].value)):
+                    return None
+                return n
+        return None
+
+    def super_call(self, e: ast.Call):
+        """`super().m(a, …)` inside a method of `class C(B)` with the single base `B` (a plain name) is `B.m(self, a, …)`"""
+        f = e.func
+        if isinstance(f, ast.Attribute) and isinstance(f.value, ast.Call) and isinstance(f.value.func, ast.Name) \
+                and f.value.func.id == "super" and not f.value.args and not f.value.keywords and "super" not in self.bound \
+                and isinstance(self.cls, ast.ClassDef) and len(self.cls.bases) == 1 and isinstance(self.cls.bases[0], ast.Name) \
+                and not self.cls.keywords and self.fn.args.args:
+            me = self.fn.args.args[0].arg
+            return ast.Call(func=ast.Attribute(value=ast.Name(id=self.cls.bases[0].id, ctx=ast.Load()), attr=f.attr,
+                                               ctx=ast.Load()),
+                            args=[ast.Name(id=me, ctx=ast.Load())] + list(e.args), keywords=list(e.keywords))
+        return None
+
+    def is_math_prod(self, f) -> bool:
+        """`prod` imported from `math` (not rebound) / `math.prod` with `import math`"""
+        for n in getattr(self.module, "body", []):
+            if isinstance(f, ast.Name) and f.id not in self.bound and f.id not in self.helpers \
+                    and isinstance(n, ast.ImportFrom) and n.module == "math" and n.level == 0 \
+                    and any((a.asname or a.name) == f.id and a.name == "prod" for a in n.names):
+                return True
+            if isinstance(f, ast.Attribute) and f.attr == "prod" and isinstance(f.value, ast.Name) \
+                    and f.value.id not in self.bound and isinstance(n, ast.Import) \
+                    and any((a.asname or a.name) == f.value.id and a.name == "math" for a in n.names):
+                return True
+        return False
+
     def call(self, e: ast.Call, sub):  # noqa: C901, PLR0911, PLR0912
         if self.orch and self.is_mcall(e):
             raise TranslationError(f"call of the translated method `{e.func.attr}` in a position it cannot be hoisted from")
+        if isinstance(e.func, ast.Name) and e.func.id in self.module_opaque and e.func.id not in sub and not e.keywords \
+                and not any(isinstance(a, ast.Starred) for a in e.args):
+            return ("ext", f"helper#{self.module_opaque[e.func.id]}", [self.expr(a, sub) for a in e.args])
+        sup = self.super_call(e)
+        if sup is not None:
+            e = sup
+        pos = self.positional_form(e, sub)
+        if pos is not None:
+            e = pos
         canon = self.canonical_call(e, sub)
         if canon is not None:
             return canon
@@ -581,6 +784,9 @@ class Tr:
             raise TranslationError(f"call with keyword arguments: {_dump(e)}")
         f = e.func
         starred = any(isinstance(a, ast.Starred) for a in e.args)
+        if len(e.args) == 1 and not starred and self.is_math_prod(f):
+            # `math.prod(it)` is `reduce(mul, it, 1)` (product of the items, start value 1)
+            return ("call", "reduceMul", [self.expr(e.args[0], sub), ("lit", ("int", 1))])
         if isinstance(f, ast.Name) and f.id not in sub:
             name = f.id
             if name in ("any", "all") and len(e.args) == 1 and not starred:
@@ -628,6 +834,16 @@ class Tr:
                 if starred:
                     raise TranslationError(f"starred call of the variable {name}")
                 return ("ext", "call", [("var", name)] + [self.expr(a, sub) for a in e.args])
+            if name in self.module_opaque and not starred:
+                return ("ext", f"helper#{self.module_opaque[name]}", [self.expr(a, sub) for a in e.args])
+            mh = self.module_helper(name) if not starred and self.inline_depth < 4 else None      # noqa: PLR2004
+            if mh is not None and len(mh.args.args) == len(e.args) and all(_simple(a) for a in e.args):
+                self.inline_depth += 1
+                try:
+                    return self.expr(mh.body[-1].value, dict(zip([p.arg for p in mh.args.args],
+                                                                  [self.expr(a, sub) for a in e.args])))
+                finally:
+                    self.inline_depth -= 1
             return self.ext(name, e.args, sub)
         if isinstance(f, ast.Attribute):
             if isinstance(f.value, ast.Name) and f.value.id[:1].isupper() and f.value.id not in sub \
@@ -831,8 +1047,45 @@ class Tr:
                     return False
         return True
 
+    def single_use_locals(self, stmts: list) -> list:
+        """`x = E` directly followed by `return R` where the local `x` is bound nowhere else, read exactly once in the whole
+        function - in `R`, as the FIRST thing `R` evaluates - is `return R[x := E]`: nothing is evaluated between `E` and
+        the use, and the binding is dead after the return.  (A result bound to a name just before it is returned.)"""
+        import copy
+        out, i = [], 0
+        while i < len(stmts):
+            s, nxt = stmts[i], stmts[i + 1:i + 2]
+            tg = None
+            if isinstance(s, ast.Assign) and len(s.targets) == 1:
+                tg = s.targets[0]
+            elif isinstance(s, ast.AnnAssign) and s.value is not None:
+                tg = s.target
+            if isinstance(tg, ast.Name) and nxt and isinstance(nxt[0], ast.Return) and nxt[0].value is not None \
+                    and tg.id not in self.params and tg.id not in self.helpers and self.block_helper(s.value) is None:
+                x = tg.id
+                stores = sum(1 for n in ast.walk(self.fn) if isinstance(n, ast.Name) and n.id == x
+                             and isinstance(n.ctx, ast.Store))
+                loads = [n for n in ast.walk(self.fn) if isinstance(n, ast.Name) and n.id == x and isinstance(n.ctx, ast.Load)]
+                first = _first_evaluated(nxt[0].value)
+                if stores == 1 and len(loads) == 1 and first is loads[0]:
+                    ret = copy.deepcopy(nxt[0])
+                    target = _first_evaluated(ret.value)
+                    value = copy.deepcopy(s.value)
+
+                    class Sub(ast.NodeTransformer):
+                        def visit_Name(self, n):        # noqa: N802
+                            return value if n is target else n
+                    ret.value = Sub().visit(ret.value)
+                    out.append(ast.fix_missing_locations(ret))
+                    i += 2
+                    continue
+            out.append(s)
+            i += 1
+        return out
+
     def block(self, stmts) -> list:
         stmts = normalise_loops([s for s in stmts if not _is_docstring(s)], self.plumbing)
+        stmts = self.single_use_locals(stmts)
         for k, s in enumerate(stmts):
             m = self.mutation(s)
             if m and m[0] in self.loop_lists:
@@ -926,6 +1179,12 @@ class Tr:
             cur = self.expr(s.target)
             return [self.assign(s.target, ("bin", _BINOP[type(s.op)], cur, self.expr(s.value)))]
         if isinstance(s, ast.If):
+            inner = [x for x in s.body if not _is_docstring(x)]
+            if not s.orelse and len(inner) == 1 and isinstance(inner[0], ast.If) and not inner[0].orelse \
+                    and self.block_helper(s.test) is None and self.block_helper(inner[0].test) is None:
+                # `if a: (if b: S)` without any else is `if a and b: S` (`and` evaluates b only when a holds)
+                both = ast.BoolOp(op=ast.And(), values=[s.test, inner[0].test])
+                return self.stmt(ast.copy_location(ast.If(test=both, body=inner[0].body, orelse=[]), s))
             pre, cond = self.cond_with_helper(s.test)
             return pre + [("ite", cond, self.block(s.body), self.block(s.orelse))]
         if isinstance(s, ast.For):
@@ -1417,7 +1676,18 @@ def extract_funcs(src, funcs, scoped_comp=False, plumbing=False, opaque=None, or
         # phase 6: methods of a class may call the methods of the same class that are translated EARLIER in `funcs`
         plumbing, meta, methods = True, {}, {}
         for lean, rel, path in funcs:
-            fn, scopes = find_def(tree(rel), path)
+            try:
+                fn, scopes = find_def(tree(rel), path)
+            except TranslationError:
+                # moved to another private module and re-exported from `rel`?  (`from ._x import name`)
+                try:
+                    rel2 = resolve_reexport(src, rel, path.split(".")[0])[0]
+                except (SyntaxError, OSError):
+                    rel2 = rel
+                if rel2 == rel:
+                    raise
+                rel = rel2
+                fn, scopes = find_def(tree(rel), path)
             cls = scopes[-1] if isinstance(scopes[-1], ast.ClassDef) else None
             key = (rel, path.rsplit(".", 1)[0]) if cls is not None else None
             res = translate_function(fn, enums, stdlib_loggers(tree(rel)), scoped_comp, plumbing,
@@ -1428,10 +1698,22 @@ def extract_funcs(src, funcs, scoped_comp=False, plumbing=False, opaque=None, or
             out[lean] = dict(res, path=f"{rel}: {path}")
         return out
     for lean, rel, path in funcs:
-        fn, _ = find_def(tree(rel), path)
+        rel0 = rel
+        try:
+            fn, scopes = find_def(tree(rel), path)
+        except TranslationError:
+            # moved to another private module and re-exported from `rel`?  (`from ._x import name`)
+            try:
+                rel = resolve_reexport(src, rel0, path.split(".")[0])[0]
+            except (SyntaxError, OSError):
+                rel = rel0
+            if rel == rel0:
+                raise
+            fn, scopes = find_def(tree(rel), path)
+        cls = scopes[-1] if scopes and isinstance(scopes[-1], ast.ClassDef) else None
         out[lean] = dict(translate_function(fn, enums, stdlib_loggers(tree(rel)), scoped_comp, plumbing,
-                                            (opaque or {}).get(lean, ()), tree(rel)),
-                         path=f"{rel}: {path}")
+                                            (opaque or {}).get(lean, ()), tree(rel), cls=cls),
+                         path=f"{rel0}: {path}")
     return out
 
 
